@@ -180,7 +180,12 @@ func (v array_[V]) SetValues(index int, values Sequential[V]) {
 	// The full index range must be in bounds.
 	var size = values.GetSize()
 	var first = v.toZeroBased(index)
-	var last = v.toZeroBased(index+size-1) + 1
+	var last = first
+	if size > 0 {
+		// Use the positive ordinal of the last value so that a negative
+		// index cannot wrap through zero.
+		last = v.toZeroBased(first+size) + 1
+	}
 	copy(v[first:last], values.AsArray())
 }
 
